@@ -101,6 +101,12 @@ structure State where
   acc : Nat → Nat := fun _ => 0
   /-- ghost: how often the value of task `t` has been handed to a receiver -/
   delivered : Nat → Nat := fun _ => 0
+  /-- ghost: the value the future of task `t` returned (`Poll::Ready(v)`), recorded by the wrapper future of
+      `enqueue_forwarding` at the moment it passes it to `Sender::send` -/
+  ret : Nat → Option Nat := fun _ => none
+  /-- ghost: the values the relay of task `t` has handed to a receiver (`Receiver::poll` returning `Ready`,
+      `try_receive` returning `Ok`), in order -/
+  recv : Nat → List Nat := fun _ => []
   /-- channel `k`: tokens -/
   tokens : Nat → Nat := fun _ => 0
   /-- channel `k`: registered wakers, in registration order (duplicates possible) -/
@@ -181,7 +187,8 @@ def runActs (t : Nat) : Script → State → State × Option Script
           relay := upd s.relay c .done
           kids := upd s.kids t cs
           acc := upd s.acc t (s.acc t + v)
-          delivered := upd s.delivered c (s.delivered c + 1) }
+          delivered := upd s.delivered c (s.delivered c + 1)
+          recv := upd s.recv c (s.recv c ++ [v]) }
       | .done => ({ s with bad := true }, some (.join :: rest))
       | _ => ({ s with relay := upd s.relay c (.polled t) }, some (.join :: rest))
 
@@ -189,7 +196,7 @@ def runActs (t : Nat) : Script → State → State × Option Script
     `sender.send(value)`; then `Task::poll` empties the slot -/
 def complete (s : State) (t : Nat) : State :=
   let s1 := send s t (value s t)
-  { s1 with fut := upd s1.fut t none }
+  { s1 with fut := upd s1.fut t none, ret := upd s1.ret t (some (value s t)) }
 
 /-- ghost: append an event to the trace -/
 def logEv (s : State) (e : Ev) : State := { s with log := s.log ++ [e] }
@@ -290,7 +297,9 @@ def tryRecvTask (s : State) (nch : Nat) (c : Nat) : Except TryErr Nat :=
 /-- … and what it does to the relay: a computed value is taken out -/
 def takeValue (s : State) (c : Nat) : State :=
   match s.relay c with
-  | .computed _ => { s with relay := upd s.relay c .done, delivered := upd s.delivered c (s.delivered c + 1) }
+  | .computed v =>
+    { s with relay := upd s.relay c .done, delivered := upd s.delivered c (s.delivered c + 1),
+             recv := upd s.recv c (s.recv c ++ [v]) }
   | _ => s
 
 /-- is `c` a child some task still holds the receiver of (and will await)? Polling a receiver after
